@@ -17,10 +17,32 @@ def _zero_trip(p, fail):
   return bool(iters) and bool(fail.get('reported')) and all(r in iters for r in fail['reported'])
 
 
+def _in_default_expr(p, fail):
+  """The read occurrence (numbered in ast.walk order, as vf.e2.number does) lies inside a
+  default-value expression of a nested function definition."""
+  import ast
+  occ = fail.get('read_occ')
+  if occ is None:
+    return False
+  tree = ast.parse(p.src)
+  nodes = list(ast.walk(tree))
+  if occ >= len(nodes):
+    return False
+  target = nodes[occ]
+  for fn in ast.walk(tree):
+    if isinstance(fn, (ast.FunctionDef, ast.Lambda)):
+      for d in list(fn.args.defaults) + [k for k in fn.args.kw_defaults if k is not None]:
+        if any(n is target for n in ast.walk(d)):
+          return True
+  return False
+
+
 def classify(p, fail):
   tags = set()
   if fail.get('kind') == 'free_variable_read_in_nested_function':
     tags.add('free_variable_read_in_nested_function')
+  if fail.get('kind') == 'actual_definition_not_reaching' and _in_default_expr(p, fail):
+    tags.add('read_in_default_expression_of_nested_function')
   if fail.get('kind') == 'actual_definition_not_reaching' and _zero_trip(p, fail):
     tags.add('for_target_definition_killed_on_zero_trip_exit')
   return tags
